@@ -131,7 +131,7 @@ func gcsErr(err error) string {
 
 // ---------------------------------------------------------------- exec
 
-func observe(f *gcs.Filter, key [gcs.KeySize]byte, qs [][]byte) string {
+func observe(f *gcs.Filter, key [gcs.KeySize]byte, qs [][]byte, built bool) string {
 	var m strings.Builder
 	for _, q := range qs {
 		ok, err := f.Match(key, q)
@@ -150,13 +150,14 @@ func observe(f *gcs.Filter, key [gcs.KeySize]byte, qs [][]byte) string {
 	if err1 != nil || err2 != nil || err3 != nil {
 		return "err:matchany"
 	}
-	// MatchAny picks a strategy by a heuristic; where the two strategies disagree (only possible on a
-	// deserialised stream whose N does not cover the data) its choice is not part of the observation.
-	anyS := bit(any)
-	if zip != hash {
-		anyS = "*"
+	if !built {
+		// A deserialised stream may hold more (or fewer) values than its N says. Match and ZipMatchAny
+		// stop after N values, HashMatchAny indexes the whole stream, MatchAny picks one of the two by a
+		// heuristic: on such input only "what the zip finds the hash finds too" is observed, so that a
+		// refactor of the over-read or of the heuristic raises no alarm.
+		return fmt.Sprintf("m=%s zip=%s hz=%s", ms, bit(zip), bit(!zip || hash))
 	}
-	return fmt.Sprintf("m=%s zip=%s hash=%s any=%s", ms, bit(zip), bit(hash), anyS)
+	return fmt.Sprintf("m=%s zip=%s hash=%s any=%s", ms, bit(zip), bit(hash), bit(any))
 }
 
 func execGcs(f []string) string {
@@ -198,10 +199,10 @@ func execGcs(f []string) string {
 			gp, _ := g.NPBytes()
 			fp, _ := flt.NPBytes()
 			rt = g.N() == flt.N() && g.P() == flt.P() && string(gb) == string(nb) && string(gp) == string(fp) &&
-				observe(g, key, qs) == observe(flt, key, qs)
+				observe(g, key, qs, true) == observe(flt, key, qs, true)
 		}
 		return fmt.Sprintf("n=%d nbytes=%s pb=%s np=%s rt=%s %s", flt.N(), hex.EncodeToString(nb),
-			hexTok(pb[:1]), hex.EncodeToString(np), bit(rt), observe(flt, key, qs))
+			hexTok(pb[:1]), hex.EncodeToString(np), bit(rt), observe(flt, key, qs, true))
 	case "from":
 		p, _ := strconv.Atoi(f[1])
 		m := u64(f[2])
@@ -211,7 +212,7 @@ func execGcs(f []string) string {
 		if err != nil {
 			return gcsErr(err)
 		}
-		return observe(flt, key, parseItems(f[6]))
+		return observe(flt, key, parseItems(f[6]), false)
 	case "fromn":
 		p, _ := strconv.Atoi(f[1])
 		m := u64(f[2])
@@ -221,7 +222,7 @@ func execGcs(f []string) string {
 			return gcsErr(err)
 		}
 		b, _ := flt.Bytes()
-		return fmt.Sprintf("n=%d data=%s %s", flt.N(), hexTok(b), observe(flt, key, parseItems(f[5])))
+		return fmt.Sprintf("n=%d data=%s %s", flt.N(), hexTok(b), observe(flt, key, parseItems(f[5]), false))
 	case "basic":
 		raw := unhex(f[1])
 		var h wire.BlockHeader
